@@ -24,7 +24,7 @@ if not os.path.isdir(WT):
 sh(f"git -C {WT} checkout -q --detach $(git -C /repo rev-parse HEAD) && git -C {WT} checkout -- . && git -C {WT} clean -fdq tests src")
 conf = {}
 # touches only library source?
-files = [l[6:] for l in open(diff) if l.startswith("+++ b/")]
+files = [l[6:].strip() for l in open(diff) if l.startswith("+++ b/")]
 conf["files"] = files
 conf["only_src"] = all(f.startswith("src/") for f in files)
 conf["applies"] = sh(f"git -C {WT} apply --check {diff}").returncode == 0
